@@ -25,6 +25,8 @@ pub enum Dev {
     U(PtOp),
     W(PtOp),
     WrongKey(usize),
+    /// keys algebraically related to the right one: 0 = -sk, 1 = sk+1, 2 = 2 sk, 3 = sk-1
+    RelatedKey(u8),
 }
 
 #[derive(Clone, Debug, PartialEq, Eq, Hash, Serialize, Deserialize)]
@@ -166,6 +168,9 @@ impl<C: Suite> Model for M11<C> {
                 a.push(Dev::WrongKey(j));
             }
             a.push(Dev::WrongKey(1 - st.k));
+            for r in 0..4u8 {
+                a.push(Dev::RelatedKey(r));
+            }
         } else if st.devs.len() == 1 && self.tier.thorough() && st.base && st.len == 5 && st.k == 0 {
             // second deviation: pairs of bit flips inside v (with its length prefix) and the scheme byte
             if let Dev::BitFlip(i) = st.devs[0] {
@@ -261,6 +266,15 @@ impl<C: Suite> Model for M11<C> {
                     }
                 }
                 Dev::WrongKey(j) => dsk = self.sks[j].clone(),
+                Dev::RelatedKey(r) => {
+                    let one = Sc::<C>::ONE;
+                    dsk = SecretKey::<C>(match r {
+                        0 => -sk.0,
+                        1 => sk.0 + one,
+                        2 => sk.0 + sk.0,
+                        _ => sk.0 - one,
+                    })
+                }
             }
         }
         if serialized_mutant {
@@ -281,7 +295,7 @@ impl<C: Suite> Model for M11<C> {
             }
         }
         let ct = ct.unwrap();
-        let wrong_key = st.devs.iter().any(|d| matches!(d, Dev::WrongKey(_)));
+        let wrong_key = st.devs.iter().any(|d| matches!(d, Dev::WrongKey(_) | Dev::RelatedKey(_)));
         let valid = guard(|| bool::from(ct.is_valid()));
         let dec = guard(|| Option::<Vec<u8>>::from(ct.decrypt(&dsk)));
         let kdec = guard(|| Option::<Vec<u8>>::from(dsk.sign_decryption_key::<&[u8]>(&ct).decrypt(&ct)));
